@@ -32,6 +32,16 @@ Fixpoint str_eqb (a b : str) : bool :=
 
 Definition mem (x : str) (l : list str) : bool := existsb (str_eqb x) l.
 
+Fixpoint prefixb (p s : str) : bool :=
+  match p, s with
+  | [], _ => true
+  | x :: p', y :: s' => (x =? y) && prefixb p' s'
+  | _ :: _, [] => false
+  end.
+
+Fixpoint substrb (p s : str) : bool :=
+  prefixb p s || match s with [] => false | _ :: t => substrb p t end.
+
 (* ------------------------------------------------------------------------------------------- *)
 (* Part 1: specification *)
 
@@ -160,7 +170,11 @@ Record name_facts := {
   nf_grc_callers : list str;              (* functions of base.py that call _generate_record_class *)
   nf_routes : list (str * bool);          (* untrusted route -> hands the definition to RecordDescriptor(...) only *)
   nf_template : list tpiece;              (* RECORD_CLASS_TEMPLATE *)
-  nf_plain_default_types : list str       (* field types whose default is rendered inline as None *)
+  nf_plain_default_types : list str;      (* field types whose default is rendered inline as None *)
+  nf_init_tail : str;                     (* _generate_record_class: the constant appended to init_code after the fields *)
+  nf_kw_args : str;                       (* keyword path: args, init_code, unpack_code constants *)
+  nf_kw_init : str;
+  nf_kw_unpack : str
 }.
 
 Section WithFacts.
@@ -255,17 +269,9 @@ Definition contains_keyword (d : decl) : bool := existsb (fun f => mem f (nf_key
 Definition default_of (k t : str) : list frag :=
   if mem t (nf_plain_default_types F) then [fx "None"] else [fx "_field_"; nm k; fx ".type.default()"].
 
-Definition init_tail : list frag :=
-  [TAB; TAB; fx "__self._generated = _generated or _utcnow()"; LF; TAB; TAB; fx "__self._version = RECORD_VERSION"].
-
-Definition kw_init : list frag :=
-  [TAB; TAB; fx "for k, v in _zip_longest(__self.__slots__, args):"; LF;
-   TAB; TAB; TAB; fx "setattr(__self, k, kwargs.get(k, v))"; LF;
-   TAB; TAB; fx "_generated = __self._generated"; LF].
-
-Definition kw_unpack : list frag :=
-  [TAB; TAB; fx "values = dict([(f, __cls._field_types[f]._unpack(kwargs.get(f, v)) if kwargs.get(f, v) is not None else None) for f, v in _zip_longest(__cls.__slots__, args)])"; LF;
-   TAB; TAB; fx "return __cls(**values)"].
+Definition init_tail : list frag := [Fix (nf_init_tail F)].
+Definition kw_init : list frag := [Fix (nf_kw_init F)].
+Definition kw_unpack : list frag := [Fix (nf_kw_unpack F)].
 
 Definition render_hole (h : hole) (name : str) (d : decl) : list frag :=
   let af := all_fields d in
@@ -281,7 +287,7 @@ Definition render_hole (h : hole) (name : str) (d : decl) : list frag :=
       [fx "("] ++ join [fx ", "] (map quoted keys)
       ++ (match keys with [_] => [fx ","] | _ => [] end) ++ [fx ")"]
   | HArgs =>
-      if kw then [fx "*args, **kwargs"]
+      if kw then [Fix (nf_kw_args F)]
       else join [fx ", "] (map (fun k => [nm k; fx "=None"]) keys)
   | HInit =>
       (if kw then kw_init
